@@ -1,6 +1,7 @@
 """C11 - connection choices respect connectors in every existence scenario (DESIGN.md 6/C11)"""
 from collections import Counter
 from hypothesis import strategies as st
+from ..strat import ints
 from .. import specs, refsel, build, identity
 from ..core import Result, viol, exc_sig
 from ..observe import observe
@@ -20,12 +21,12 @@ BUDGET = {'quick': 30, 'thorough': 600}
 @st.composite
 def _spec(draw, tier):
     spec = draw(specs.sel_spec(min_nodes=3, max_nodes=7, max_incompat=0, p_extra=False))
-    spec = draw(specs.add_conns(spec, max_choices=2 if draw(st.integers(0, 2)) == 0 else 1, start_bias=0))
+    spec = draw(specs.add_conns(spec, max_choices=2 if draw(ints(0, 2)) == 0 else 1, start_bias=0))
     return spec
 
 
 def strategy(tier):
-    return st.fixed_dictionaries({'spec': _spec(tier), 'vseed': st.integers(0, 9999)})
+    return st.fixed_dictionaries({'spec': _spec(tier), 'vseed': ints(0, 9999)})
 
 
 def fixed_cases(tier):
